@@ -9,6 +9,8 @@ package c04
 import (
 	"errors"
 	"fmt"
+	"os"
+	"path/filepath"
 	"strings"
 	"sync"
 	"sync/atomic"
@@ -523,10 +525,38 @@ func run(s Sess, h *hooks) mon.Result {
 			// oo: a level option shared with config calls; it has no meaning for a command call
 			_, oerr = nd.SendCommand(op.Lines[0], oo...)
 		case "commands":
+			if op.FromFile {
+				f, cleanup, ferr := linesFile(op.Lines)
+				if ferr != nil {
+					return bad("c04/harness:file", "%v", ferr)
+				}
+				_, oerr = nd.SendCommandsFromFile(f, oo...)
+				cleanup()
+				obs["command_calls_from_file"]++
+				break
+			}
 			_, oerr = nd.SendCommands(op.Lines, oo...)
 		case "config":
 			_, oerr = nd.SendConfig(strings.Join(op.Lines, "\n"), oo...)
 		case "configs":
+			if op.FromFile {
+				// the from-file door: judged exactly like SendConfigs with the same options
+				f, cleanup, ferr := linesFile(op.Lines)
+				if ferr != nil {
+					return bad("c04/harness:file", "%v", ferr)
+				}
+				_, oerr = nd.SendConfigsFromFile(f, oo...)
+				cleanup()
+				obs["config_calls_from_file"]++
+				switch {
+				case op.Unknown != "":
+					obs["config_calls_from_file_with_unknown_level_option"]++
+				case op.Level >= 0:
+					obs["config_calls_from_file_with_level_option"]++
+				}
+				tag("op=configs-from-file")
+				break
+			}
 			_, oerr = nd.SendConfigs(op.Lines, oo...)
 		case "interactive":
 			var ev []*channel.SendInteractiveEvent
@@ -867,6 +897,20 @@ func run(s Sess, h *hooks) mon.Result {
 			"transport": devsim.Summary(conn.Log())}}
 }
 
+// linesFile writes the lines to a scratch file under .work and returns its path.
+func linesFile(lines []string) (string, func(), error) {
+	dir, err := os.MkdirTemp(filepath.Join(mon.VerifDir(), ".work"), "c04-file-")
+	if err != nil {
+		return "", nil, err
+	}
+	f := filepath.Join(dir, "lines.txt")
+	if err := os.WriteFile(f, []byte(strings.Join(lines, "\n")+"\n"), 0o644); err != nil {
+		os.RemoveAll(dir)
+		return "", nil, err
+	}
+	return f, func() { os.RemoveAll(dir) }, nil
+}
+
 func describe(s *Sess, op Op) string {
 	lvl := ""
 	switch {
@@ -891,10 +935,16 @@ func describe(s *Sess, op Op) string {
 		if op.Level >= 0 || op.Unknown != "" {
 			return fmt.Sprintf("SendCommands(%q, WithPrivilegeLevel of %s)", op.Lines, lvl)
 		}
+		if op.FromFile {
+			return fmt.Sprintf("SendCommandsFromFile(file with %q)", op.Lines)
+		}
 		return fmt.Sprintf("SendCommands(%q)", op.Lines)
 	case "config":
 		return fmt.Sprintf("SendConfig(%q, %s)", strings.Join(op.Lines, "\n"), lvl)
 	case "configs":
+		if op.FromFile {
+			return fmt.Sprintf("SendConfigsFromFile(file with %q, %s)", op.Lines, lvl)
+		}
 		return fmt.Sprintf("SendConfigs(%q, %s)", op.Lines, lvl)
 	}
 	if len(op.Lines) > 0 {
@@ -936,6 +986,8 @@ func init() {
 			"Change-window family (40 / 400): trees with the sibling levels configuration / configuration-exclusive / configuration-private (own prompts or one shared prompt); one option list " +
 			"{WithPrivilegeLevel(L)} shared between config and command calls: SendCommand(s) carrying the level option (known or unknown level; it has no meaning for them, they must run at the default desired level) as first call " +
 			"of a session and right after SendConfig(s)/AcquirePriv/SendInteractive, and SendConfig(s) without a level back to back after calls at another flavour (must go to \"configuration\"). " +
+			"In the change-window and flavour families a share of the SendConfigs/SendCommands calls goes through SendConfigsFromFile/SendCommandsFromFile, and from-file config calls carrying " +
+			"WithPrivilegeLevel (a known flavour; an unknown name, which must be refused before any write) are added, judged exactly like SendConfigs with that option. " +
 			"Flavour family (40 / 400): trees with 2-3 sibling leaf levels that share one prompt and pattern (different escalate commands, each de-escalating to the common parent) and sequences " +
 			"that keep moving between them through AcquirePriv / SendConfig(s) default and WithPrivilegeLevel / SendInteractive / SendCommand(s); the device's own mode decides. " +
 			"Non-trivial = a call that moves between two flavours with the same prompt, or a call whose path differs from the path between the same labels in the other tree, or a judged call after a payload-induced move, or a call whose tree path has >=2 steps, or that crosses an edge on which the device asked for the secret, or a hop whose reaction was really held back, or a SendCommand(s) call (the operations that consult the cached level) " +
